@@ -7,6 +7,19 @@ for l in open(os.path.join(HERE, "properties.jsonl")):
 
 # property -> (design section, what the check covers, level note)   -- only properties with a working check
 CLAIMED = {
+ "C01": ("4/C01", "construction from (buffer, lengths) over symbolic row lengths for bool/uint8/int32/int64/float64 cells: len/size/shape/lengths/"
+         "ravel/dtype and the RaggedShape geometry (starts/ends = exclusive prefix sums, ravel/unravel_multi_index, index_array) for symbolic probes; "
+         "size-mismatch refusal for the list/array/RaggedShape/tuple shape forms; construction from nested lists and arrays, tolist, iteration; "
+         "astype between integer widths and bool; from/to numpy arrays; save/load (np.savez/np.load stubbed as an in-memory dict on the symbolic side, "
+         "real files at replay) through both from_dict branches",
+         "bounds: rows<=4 (5), row length<=3 (4); nested-list forms rows<=3, length<=2 (3)"),
+ "C03": ("4/C03", "ra[index] = value over the C02 selector grid (non-repeating row selectors) with scalar, flat, (K,1) column, matching ragged and "
+         "mismatching ragged values, plus boolean ragged-mask assignment: addressed cells take the value, every other cell and all row lengths unchanged, "
+         "mismatching ragged values refused",
+         "bounds: rows<=3 (4), row length<=3, bounds +-3 (5), column steps {None,-1,2} (+{1,-2,3}); column values on 64-bit vectors with rows<=2 (3), length<=2 (3)"),
+ "C05": ("4/C05", "sum/prod/any/all/max/min and bitwise_or/xor/and.reduce per row through the method, np.<func> and ufunc.reduce entry points, keepdims, "
+         "and axis=None, over symbolic row lengths with empty rows anywhere (all-empty and zero rows included); multiplication as an uninterpreted left fold",
+         "bounds: rows<=4 (5), row length<=3 (4); max/min with non-empty rows; result element type not compared (C04's subject); mean/argmax/argmin not yet covered"),
  "C02": ("4/C02", "every index expression of the grammar (row: int, slice with any step, list/array with repeats and negatives, bool mask, "
          "Ellipsis; column: absent, int, slice with any start/stop/step) over symbolic row lengths (empty rows anywhere), symbolic cells and "
          "symbolic index parameters: result equals Python list-of-rows indexing, refusals exactly where the list model refuses",
